@@ -164,7 +164,10 @@ func (l *Gpos5_1) countMarkClasses() int {
 			maxClass = rec.Class
 		}
 	}
-	return int(maxClass) + 1
+	// The count is a 16-bit field.  Without any ligature component there is
+	// no anchor row which a mark class could index, so the largest count the
+	// field can hold serves for a mark of class 0xFFFF.
+	return min(int(maxClass)+1, 0xFFFF)
 }
 
 // ligAttachLen returns the length of the LigatureAttach table for one
